@@ -2253,6 +2253,7 @@ def run(chk):
     chk.assumptions = [
         "json.loads / yaml.load(Loader=insights.core.SafeLoader) are parameters of the model (`loads`): the driver is given the library's outcome for every text the parser may pass",
         "time_re (the format-derived regular expression) and strptime's field extraction are a parameter (`stamp`): the driver is given the generated log's own fields per line; the arithmetic after that (datetime construction with year 1900, replace(year), the 330-day rule, >=) is modelled; since round 10 the format itself is an input of the model (fmtCheck: None / wrong type / unknown directive, and logs_have_year derived from the text)",
+        "round 10b: WHERE the stamp is in a line is computed by the harness's reference (ref_stamp: the documented conversion table hard-coded in harness/c14.py, first match of the format's expression, no token boundary, then strptime) for the get_after-adjacent stream, whose stamps touch further digits (7-9 digit fractions behind %f), PIDs and letters on either side; the model still receives the fields",
         "parser.invoke: the outcome of each single construction (object / ContentException / SkipComponent / other exception) is taken from the implementation's own direct construction and handed to the model; the model says what the broker must hold; dr.run's own scheduling is C01-C04's subject",
         "str.lower is a parameter of the theorems; the driver uses ASCII lower-casing and the generator keeps non-ASCII characters caseless",
         "error phrases of the oracle: the documented lists at the pinned tree, hard-coded in harness/c14.py",
